@@ -78,4 +78,12 @@ package capnp
 //@ func Unmarshal -> msg, err
 //@   props C14 C01
 //@   requires len(data) <= 1<<32   -- larger inputs would need 32-bit header index arithmetic to be revisited
+//@   ensures implies(err == nil, msg != nil && msg.Arena != nil)
 //@   assert before "hdr := streamHeader{data[:hdrSize]}" [C14] hdrfits: M(hdrSize) == hdrBytes(M(maxSeg)) && M(hdrSize) <= M(len(data))
+
+// demuxArena's per-segment slicing needs prefix sums over the header and is not verified (C14
+// note); what Unmarshal relies on is ASSUMED: on success it returns an arena.
+//@ func demuxArena -> arena, err
+//@   trusted
+//@   modifies nothing
+//@   ensures implies(err == nil, arena != nil)
